@@ -32,6 +32,12 @@ BondOrder2(a1, a2) ==
   ELSE IF a1 = a2 /\ a1 \in {"C_R", "N_R", "O_R"} THEN 3
   ELSE 2
 
+\* user rules: a sequence of [t |-> set of type names, bo2 |-> twice the bond order]; the first rule whose set is exactly
+\* the set of the two types of the bond applies (so {X, Y} says nothing about an X-X bond, and {X} is an X-X bond)
+RuleOrder2(a1, a2, rules) ==
+  LET hits == {n \in 1..Len(rules) : rules[n].t = {a1, a2}}
+  IN IF hits = {} THEN BondOrder2(a1, a2) ELSE rules[CHOOSE n \in hits : \A m \in hits : n <= m].bo2
+
 AngleStyle(i) ==   \* i: index of the centre type
   LET th == T(i).theta
   IN IF th = 18000 THEN [style |-> "cosine/periodic", b |-> 1, n |-> 1]
@@ -74,6 +80,13 @@ JudgeUff(e) ==
       ELSE IF e.num # "ok" THEN "bond-formula:" \o e.num
       ELSE IF e.sym # "yes" THEN "bond-reversal-symmetry"
       ELSE "ok")
+  ELSE IF e.kind = "bondrule" THEN
+     LET rules == [n \in DOMAIN e.rules |-> [t |-> {e.rules[n].t[m] : m \in DOMAIN e.rules[n].t}, bo2 |-> e.rules[n].bo2]]
+     IN (IF e.exc # "none" THEN "no-exception"
+         ELSE IF e.bo2 # RuleOrder2(e.a[1], e.a[2], rules) THEN "bond-order-user-rules"
+         ELSE IF e.num # "ok" THEN "rules-formula:" \o e.num
+         ELSE IF e.sym # "yes" THEN "bond-reversal-symmetry"
+         ELSE "ok")
   ELSE IF e.kind = "angle" THEN
      LET s == AngleStyle(ByName(e.a[2]))
      IN (IF e.exc # "none" THEN "no-exception"
